@@ -431,6 +431,16 @@ class Ovld:
             if not mixin._locked:
                 mixin.lock()
 
+    def _lock_parents(self):
+        # A parent that propagates its changes to this ovld (linkback) can
+        # stay open, but whatever that parent is assembled from without
+        # propagation must not change anymore either
+        for mixin in self.mixins:
+            if self in mixin.children:
+                mixin._lock_parents()
+            else:
+                mixin.lock()
+
     def _attempt_modify(self):
         if self._locked:
             raise Exception(f"ovld {self} is locked for modifications")
@@ -491,9 +501,7 @@ class Ovld:
         This will also lock this ovld's parent mixins to prevent their
         modification.
         """
-        for mixin in self.mixins:
-            if self not in mixin.children:
-                mixin.lock()
+        self._lock_parents()
 
         if self.name is None:
             self.name = self.__name__ = f"ovld{self.id}"
